@@ -30,6 +30,8 @@ CORPUS = {
     "a_open.py": "def f(path: str) -> None:\n    open(path)\n    len(path)\n    sorted(path)\n",
     "b_open.py": ("from typing import TextIO, Sized, List\ndef f(path: str) -> TextIO:\n    return open(path)\ndef g(path: str) -> int:\n    return len(path)\n"
                   "def h(path: str) -> List[str]:\n    return sorted(path)\n"),
+    "a_abs.py": "from typing import Union\nfrom fractions import Fraction\ndef f(x: Union[int, Fraction]) -> None:\n    reveal_type(abs(x))\n",
+    "b_abs.py": "def distance(a: int, b: int) -> int:\n    reveal_type(abs(a - b))\n    return abs(a - b)\n",
     "try_defs.py": ("def c() -> bool:\n    return True\ndef f() -> None:\n    x = 0\n    try:\n        x = 1\n        if c():\n            x = 2\n        x = 3\n        x = 4\n        c()\n"
                     "    except Exception:\n        reveal_type(x)\n    with open('f') as fh:\n        y = 1\n        y = 2\n        y = 3\n    reveal_type(y)\n"),
 }
@@ -94,6 +96,10 @@ def search(thorough=False):
     with open(rpath, "w") as f:
         f.write(RUNNER)
     try:
+        # history through the per-TypeObject protocol cache (was known finding D22; fixed in /repo e62b45f): regular check now
+        rep, msg = w_d22(None)
+        if rep:
+            return msg
         names = sorted(CORPUS)
         base = _run(0, names, cpath, rpath, root)
         for seed in ((1, 2, 3, 5, 7) if not thorough else tuple(range(1, 16))):
